@@ -39,6 +39,8 @@ class FnSpec:
         self.derefs = []            # (ident, op): R9 explicit deref of a reference operand of a bit operator
         self.r12 = False            # X.iter().any(c) -> vx_any(X.as_slice(), c)
         self.r12map = {}            # receiver text -> helper name for X.into_iter().filter(c).collect()
+        self.r16 = False
+        self.r12args = {}
         self.closure_keys = None    # expected parameter keys of all closures of the function, in order (alignment)
 
 
@@ -149,6 +151,12 @@ def parse_vspec(path):
             cur_fn.derefs.append((a, b))
         elif kw == "r12":
             cur_fn.r12 = True
+        elif kw == "r16":
+            cur_fn.r16 = True
+        elif kw == "r12arg":
+            # r12arg <helper> <ghost argument text>: appended to the arguments of that R12c helper call
+            hname, txt = rest.split(None, 1)
+            cur_fn.r12args[hname] = txt
         elif kw == "closures":
             cur_fn.closure_keys = [k.strip() for k in rest.split(";")]
         elif kw == "r12map":
@@ -160,11 +168,12 @@ def parse_vspec(path):
             cur_fn.closures[int(m.group(1))] = (m.group(2), body)
             raw_target = body
         elif kw == "loop":
-            m = re.match(r"(\d+)(\s+iter\s+(\w+))?(\s+over\s+(\"(?:[^\"\\]|\\.)*\"))?$", rest)
+            m = re.match(r"(\d+)(\s+iter\s+(\w+))?(\s+pat\s+(\"(?:[^\"\\]|\\.)*\"))?(\s+over\s+(\"(?:[^\"\\]|\\.)*\"))?$", rest)
             if not m:
                 raise SystemExit(f"{path}:{ln}: bad loop directive")
             body = []
-            cur_fn.loops[int(m.group(1))] = (m.group(3), body, json.loads(m.group(5)) if m.group(5) else None)
+            cur_fn.loops[int(m.group(1))] = (m.group(3), body, json.loads(m.group(7)) if m.group(7) else None,
+                                             json.loads(m.group(5)) if m.group(5) else None)
             raw_target = body
         elif kw == "hint":
             body = []
@@ -595,6 +604,35 @@ def process_fn(toks, it, fs: FnSpec, qual, ed: Edits, log, unit_in_trait_impl):
         if cnt == 0:
             raise LostAnchor(f"{qual}: deref {ident} {op}: no occurrence")
         log["rewrites"].append({"rule": "R9", "fn": qual, "before": f"{ident} {op} …", "after": f"*{ident} {op} …", "count": cnt})
+    # R16: X.is_some_and(|p| BODY) -> (match X { Some(p) => BODY, None => false })   [closures that capture `&mut`
+    # state are outside Verus's dialect; the match is what Option::is_some_and is defined to do]
+    if getattr(fs, "r16", False):
+        cnt16 = 0
+        sgi = [k for k in range(lo, hi) if toks[k].kind not in ("ws", "comment")]
+        for ii in range(len(sgi) - 7):
+            seq = [toks[sgi[ii + d]].text for d in range(4)]
+            if seq != [".", "is_some_and", "(", "|"]:
+                continue
+            if toks[sgi[ii + 4]].kind != "ident" or toks[sgi[ii + 5]].text != "|":
+                continue
+            jj = ii - 1
+            if jj < 0 or toks[sgi[jj]].kind != "ident":
+                continue
+            while jj - 2 >= 0 and toks[sgi[jj - 1]].text == "." and toks[sgi[jj - 2]].kind == "ident":
+                jj -= 2
+            recv = src[toks[sgi[jj]].pos:toks[sgi[ii - 1]].end]
+            open_paren = sgi[ii + 2]
+            close_paren = match_close(toks, open_paren)
+            # no `return` directly in the body (it would leave the closure, not the function)
+            body_toks = [toks[q].text for q in range(sgi[ii + 5] + 1, close_paren) if toks[q].kind == "ident"]
+            if "return" in body_toks:
+                raise LostAnchor(f"{qual}: R16: `return` inside an is_some_and closure")
+            ed.replace(toks[sgi[jj]].pos, toks[sgi[ii + 5]].end, f"(match {recv} {{ Some({toks[sgi[ii + 4]].text}) => ")
+            ed.replace(toks[close_paren].pos, toks[close_paren].end, ", None => false })")
+            cnt16 += 1
+        if cnt16 == 0:
+            raise LostAnchor(f"{qual}: R16: no `.is_some_and(|x| ..)` found")
+        log["rewrites"].append({"rule": "R16", "fn": qual, "before": "X.is_some_and(|p| BODY)", "after": "(match X { Some(p) => BODY, None => false })", "count": cnt16})
     # R12: X.iter().any(c) -> vx_any(X.as_slice(), c)
     if fs.r12:
         cnt = 0
@@ -614,7 +652,7 @@ def process_fn(toks, it, fs: FnSpec, qual, ed: Edits, log, unit_in_trait_impl):
                 ed.replace(toks[sg_idx[jj]].pos, toks[sg_idx[ii + 6]].end, f"{helper12}({recv}{as_slice}, ")
                 cnt += 1
         # R12c: X.iter().<adapters>.collect() -> vx_iter_<adapters>_collect(X.as_slice(), closures…)
-        ADAPT = {"filter": "filter", "map": "map", "filter_map": "filtermap", "cloned": "cloned", "copied": "copied"}
+        ADAPT = {"filter": "filter", "map": "map", "filter_map": "filtermap", "cloned": "cloned", "copied": "copied", "take": "take"}
         for ii in range(len(sg_idx) - 4):
             if [toks[sg_idx[ii + d]].text for d in range(4)] != [".", "iter", "(", ")"]:
                 continue
@@ -669,7 +707,8 @@ def process_fn(toks, it, fs: FnSpec, qual, ed: Edits, log, unit_in_trait_impl):
                     ed.replace(toks[cp].pos, toks[cp].end, "")
                 else:
                     ed.replace(toks[dot].pos, toks[cp].end, "")
-            ed.replace(toks[term[0]].pos, toks[term[1]].end, ")")
+            extra = fs.r12args.get(helper)
+            ed.replace(toks[term[0]].pos, toks[term[1]].end, (", " + extra if extra else "") + ")")
             log["rewrites"].append({"rule": "R12c", "fn": qual, "before": f"{recv}.iter()." + ".".join(c[0] + "(..)" for c in chain) + ".collect()",
                                     "after": f"{helper}({recv}{as_slice}, ..)"})
             cnt += 1
@@ -752,6 +791,7 @@ def process_fn(toks, it, fs: FnSpec, qual, ed: Edits, log, unit_in_trait_impl):
         for n, lspec in sorted(fs.loops.items()):
             itname, raw = lspec[0], lspec[1]
             over = lspec[2] if len(lspec) > 2 else None
+            pat = lspec[3] if len(lspec) > 3 else None
             if n > len(lp):
                 raise LostAnchor(f"{qual}: loop {n} not found ({len(lp)} loops)")
             l = lp[n - 1]
@@ -759,6 +799,11 @@ def process_fn(toks, it, fs: FnSpec, qual, ed: Edits, log, unit_in_trait_impl):
                 if l.in_kw < 0:
                     raise LostAnchor(f"{qual}: loop {n} is not a for loop")
                 ed.insert(toks[l.in_kw].end, f" {itname}:")
+            if pat:
+                # the loop pattern changes with the outlined iterable (e.g. `&pid` over a set iterator -> `pid` over a Vec)
+                a = next_sig(toks, l.kw + 1, l.in_kw)
+                b = prev_sig_idx(toks, l.in_kw - 1)
+                ed.replace(toks[a].pos, toks[b].end, pat)
             if over:
                 # R11 on the iterable of a for loop: the expression between `in` and the body is outlined
                 a = next_sig(toks, l.in_kw + 1, l.body_open)
@@ -919,6 +964,10 @@ def gen_file(ws, fsx: FileSpec, log):
         it = cands[0]
         ed.insert(toks[it.first].pos, "verus! {\n", prio=9)
         ed.insert(toks[it.last].end, "\n} // verus!\n", prio=-9)
+        if "XB" in isp.flags:
+            # the type stays opaque to Verus (fields outside its dialect): #[verifier::external_body]
+            ed.insert(toks[it.first].pos, "#[verifier::external_body] ", prio=8)
+            log["rewrites"].append({"rule": "XB", "fn": isp.header, "before": "<type>", "after": "#[verifier::external_body] <type>", "count": 1})
         if "R1" in isp.flags:
             # visibility: pub(crate)/pub(super) -> pub inside this item (types and fields)
             k = it.first
